@@ -85,6 +85,9 @@ AxOrder ==
   /\ RFloor("2.5") = 2 /\ RCeil("2.5") = 3 /\ RFloor("-2.5") = -3 /\ RCeil("2") = 2
   /\ RFixed("0.1234565", 6) = "0.123456" /\ RFixed("1", 6) = "1.000000"
 
+AxMulMod == /\ \A a \in {0, 1, 7, 1000, 46340} : \A b \in {0, 3, 999, 46340} : \A n \in {1, 2, 1024, 99991} : RMulMod(a, b, n) = ((a * b) % n)
+            /\ RMulMod(1048575, 1048575, 1048576) = 1 /\ RMulMod(2000000000, 2000000000, 7) = 4
+ASSUME AxMulMod
 ASSUME AxIgamcRecurrence
 ASSUME AxIgamcBase
 ASSUME AxIgamcMonotone
